@@ -216,7 +216,7 @@ def model_check(ctx, kd, quick):
     """Design level: the ideal machine satisfies everything the judge demands; the as-is machine does not, and its
     refuting programs (witnesses of the known findings) are replayed on the real code."""
     invs = ["JudgeAccepts", "InvEntry", "InvBytes", "InvBooks", "InvGhost"]
-    ideal = [("bounds", 4 if quick else 5, dict(Policies=["lru", "ttl"], MaxE=[1, 2] if quick else [1, 2, 3], MaxB=[0, 4] if quick else [0, 1, 4])),
+    ideal = [("bounds", 4 if quick else 5, dict(Policies=["lru", "ttl"], MaxE=[1, 2] if quick else [1, 2, 3], MaxB=[0, 4])),
              ("memttl", 5 if quick else 6, dict(Policies=["lru"], MaxE=[1, 2], DTtl=["none", "short"])),
              ("disk", 5 if quick else 6, dict(DTtl=["none", "short"]))]
     for fam, depth, grid in ideal:
